@@ -172,6 +172,11 @@ class _Only:
         if self._pred(key):
             return self._ctx.inst(rule, key, ok, detail, loc, *a, **k)
 
+    def rule(self, rule, doc, floor=None):
+        # the rule is declared by the property that borrows the analysis; a shared analysis never overwrites that text or floor
+        if rule not in self._ctx.rule_doc:
+            self._ctx.rule(rule, doc, floor)
+
     def __getattr__(self, n):
         return getattr(self._ctx, n)
 
